@@ -11,11 +11,13 @@
 (* is resynchronised with the logged one.  A class without a call site names *)
 (* an input shape / configuration computed here (used by known findings).    *)
 (*                                                                           *)
-(* Event fields (all events): action, h (holder 1..4), uw, el, ag (weights / *)
+(* Event fields (all events): action, h (holder 1..5), uw, el, ag (weights / *)
 (* lengths / ages in use), dl (length recorded for None), ns (taxon codes of *)
 (* the namespace), r (rooting of the inputs), route, raised, d (projected    *)
 (* state of the holder after the call: n, sw, roots, sp, cnt, len, age).     *)
 (* Count: g, w.  Update / Rebuild: o (other holder), ws (raw tree weights).  *)
+(* Merge: h = o + o2 (TreeArray.__add__).  Observations of an object that    *)
+(* was not called since its last event must find its state unchanged.        *)
 (* Freqs: fsp, fv (the table), qsp, qv (lookups).  Consensus: thr, g, a.     *)
 (* Summarize: g, a.  Collapse: thr, g0, g1.  Cred: kind, ranks, g, a.        *)
 (* a = annotations per node id: sup, lab, l*/a* summaries, elen, nage + the  *)
@@ -219,15 +221,23 @@ JudgeCred(e, cur) ==
          \o ScoreOrderDrift(e, cur)
 
 \* ------------------------------------------------------------ the judge
-Mutators == {"Count", "Update", "Rebuild"}
+Mutators == {"Count", "Update", "Rebuild", "Merge"}
 Judge(e, s, pa) ==
     LET cur == s[e.h]
         obs == FromJson(e.d)
     IN CASE e.action = "Count" -> JudgeCount(e, cur)
          [] e.action = "Update" -> JudgeUpdate(e, cur, s[e.o])
          [] e.action = "Rebuild" -> JudgeRebuild(e, s[e.o])
+         [] e.action = "Merge" -> JudgeUpdate(e, s[e.o], s[e.o2])
          [] OTHER ->
-              (IF DistDiff(cur.D, obs) # {} THEN V("C05.Chain", "state changed outside a counting call: " \o e.action) ELSE None)
+              \* the object was not touched since its last logged call: its state must still be what its own trees
+              \* contributed (values leaking in from another object after update() / + are caught here)
+              (LET df == DistDiff(cur.D, obs) IN
+               IF df = {} THEN None
+               ELSE IF df \subseteq {"len", "age"} THEN
+                      (IF "len" \in df THEN V("C05.LengthSummaries", "collected-values-changed-by-calls-on-another-object") ELSE None)
+                      \o (IF "age" \in df THEN V("C05.AgeSummaries", "collected-values-changed-by-calls-on-another-object") ELSE None)
+               ELSE V("C05.Chain", "state changed outside a counting call: " \o e.action))
               \o (CASE e.action = "Freqs" -> JudgeFreqs(e, obs, pa \in Mutators)
                     [] e.action = "Consensus" -> JudgeConsensus(e, obs)
                     [] e.action = "Summarize" -> JudgeSummarize(e, obs)
@@ -240,9 +250,10 @@ After(e, s) ==
              [s EXCEPT ![e.h] = [D |-> obs, trees |-> Append(@.trees, [t |-> AbsTree(e.g, -1, e.ag), w |-> EffW(Q(e.w), e.uw)])]]
       [] e.action = "Update" /\ e.raised = "" -> [s EXCEPT ![e.h] = [D |-> obs, trees |-> @.trees \o s[e.o].trees]]
       [] e.action = "Rebuild" /\ e.raised = "" -> [s EXCEPT ![e.h] = [D |-> obs, trees |-> s[e.o].trees]]
+      [] e.action = "Merge" /\ e.raised = "" -> [s EXCEPT ![e.h] = [D |-> obs, trees |-> s[e.o].trees \o s[e.o2].trees]]
       [] OTHER -> [s EXCEPT ![e.h].D = obs]
 
-Fresh == <<EmptyHolder, EmptyHolder, EmptyHolder, EmptyHolder>>
+Fresh == <<EmptyHolder, EmptyHolder, EmptyHolder, EmptyHolder, EmptyHolder>>
 Init == l = 1 /\ bad = <<>> /\ st = Fresh
 Next == /\ l <= Len(Tr)
         /\ LET e == Tr[l]
